@@ -1,3 +1,8 @@
+// NOT RUN (tier: off): two requests on two slots through the real TX/RX path with symbolic arrival and
+// poll order ran out of memory at 30 GB after ~50 min of CBMC. C20 is decided by the one-step
+// harnesses listed below instead (routing from every pair of slot states, capacity error, index
+// survival under a concurrent drop, view lifetime).
+//
 // C20: tasks sharing one MainDevice do not disturb each other.
 //
 // Decided at await-point granularity on the real transport: two requests by two tasks are in
@@ -15,7 +20,7 @@ const FRAME: usize = 32;
 
 //@ harness: c20_two_inflight
 //@ property: C20, C01
-//@ tier: thorough
+//@ tier: off
 //@ unwind: 8
 //@ unwindset: c20_two_inflight:32
 //@ timeout: 3000
